@@ -284,6 +284,57 @@ func init() {
 		}
 		return "ok " + toHex(buf.Bytes())
 	})
+	// state carried by one *Exchange between calls: the exchange is first used as A (header block serialised, header integrity
+	// computed, written, signed message built), then every field is set to B's in place, and the requested output must be B's
+	register("sxg.reuse", func(args []string) string {
+		what := args[0]
+		e, rest := parseExchange(args[1:])
+		b, rest2 := parseExchange(rest)
+		var sink bytes.Buffer
+		e.DumpExchangeHeaders(&sink)
+		e.ComputeHeaderIntegrity()
+		e.Write(&sink)
+		e.Version, e.RequestURI, e.RequestMethod, e.ResponseStatus = b.Version, b.RequestURI, b.RequestMethod, b.ResponseStatus
+		e.SignatureHeaderValue, e.Payload = b.SignatureHeaderValue, b.Payload
+		for k := range e.RequestHeaders {
+			delete(e.RequestHeaders, k)
+		}
+		for k, v := range b.RequestHeaders {
+			e.RequestHeaders[k] = v
+		}
+		for k := range e.ResponseHeaders {
+			delete(e.ResponseHeaders, k)
+		}
+		for k, v := range b.ResponseHeaders {
+			e.ResponseHeaders[k] = v
+		}
+		var buf bytes.Buffer
+		switch what {
+		case "write":
+			if err := e.Write(&buf); err != nil {
+				return "err"
+			}
+			return "ok " + toHex(buf.Bytes())
+		case "hdr":
+			if err := e.DumpExchangeHeaders(&buf); err != nil {
+				return "err " + errClass(err)
+			}
+			return "ok " + toHex(buf.Bytes())
+		case "hdrint":
+			s, err := e.ComputeHeaderIntegrity()
+			if err != nil {
+				return "err"
+			}
+			return "ok " + toHex([]byte(s))
+		case "mi":
+			rs, _ := strconv.Atoi(rest2[0])
+			if err := e.MiEncodePayload(rs); err != nil {
+				return "err"
+			}
+			return "ok " + showExchange(e)
+		}
+		panic("bad-op")
+	})
 	register("sxg.hdrint", func(args []string) string {
 		e, _ := parseExchange(args)
 		s, err := e.ComputeHeaderIntegrity()
